@@ -77,7 +77,7 @@ def eval_monad_expand_where(a):
 
     """
     arr = a if is_list(a) else [a]
-    return bknp.repeat(bknp.arange(len(arr)), arr)
+    return bknp.repeat(bknp.arange(len(arr)), bknp.asarray(arr, dtype=int))
 
 
 def eval_monad_first(a):
